@@ -2265,7 +2265,36 @@ def make_subst(repo: Repo, v: FuncInfo):
 
     unions = _union_built(v.node, params)
 
-    def member(left: str, se: ast.AST, depth: int = 0, top: bool = True) -> Formula | None:
+    def eq_atom(left: str, e: ast.AST) -> Formula | None:
+        try:
+            return to_formula(ast.Compare(left=ast.parse(left, mode="eval").body, ops=[ast.Eq()], comparators=[e]), subst)
+        except SyntaxError:
+            return None
+
+    def snapshot(left: str, name: str, at: int) -> Formula | None:
+        """`left in name` as it was at position `at`, when `name` is changed afterwards only one node at a time (`name.add(e)`,
+        `name.remove(e)` / `discard(e)`):  what is in the final set and was not put in later was there already; what was taken out
+        later may have been there (a free atom)."""
+        later = [pos for pos in mutated_at.get(name, []) if pos > at]
+        if not later:
+            return atom(f"{left} in {name}")
+        adds: list[Formula] = []
+        for n in ast.walk(v.node):
+            if mutated_at["@pos"].get(id(n), -1) not in later:
+                continue
+            if isinstance(n, ast.Call) and isinstance(n.func, ast.Attribute) and isinstance(n.func.value, ast.Name) and n.func.value.id == name and len(n.args) == 1 and not n.keywords:
+                if n.func.attr == "add":
+                    eq = eq_atom(left, n.args[0])
+                    if eq is None:
+                        return None
+                    adds.append(f_and([conds_formula(all_conds(v, n), subst), eq]))
+                    continue
+                if n.func.attr in ("remove", "discard"):
+                    continue
+            return None  # changed wholesale afterwards: the earlier content is unknown
+        return f_or([f_and([atom(f"{left} in {name}"), f_not(f_or(adds))]), atom(f"{left} in {name}@{at}")])
+
+    def member(left: str, se: ast.AST, depth: int = 0, top: bool = True, at: int | None = None) -> Formula | None:
         """Formula of `left in <set expression>` for set algebra over node sets (`A | B`, `A - B`, `A & B`, .union / .difference /
         .intersection, `{*A, *B}`), also through a local bound once to such an expression whose operands are complete by then.
         None when the expression is a plain set (the membership stays an atom)."""
@@ -2283,11 +2312,21 @@ def make_subst(repo: Repo, v: FuncInfo):
                 if isinstance(val, (ast.BinOp, ast.Set)) or (isinstance(val, ast.Call) and isinstance(val.func, ast.Attribute) and val.func.attr in ("union", "difference", "intersection")):
                     here = mutated_at["@pos"].get(id(single[se.id]), -1)
                     operands = {x.id for x in ast.walk(val) if isinstance(x, ast.Name)}
-                    if not any(pos > here for x in operands for pos in mutated_at.get(x, [])):
-                        got = member(left, val, depth + 1, True)
+                    later = _later_adds(v.node, se.id)  # `V = A - B` .. `if flag: V.add(e)`: V is (A - B) plus e under flag
+                    if later is not None:
+                        # operands that are still changed afterwards are read as they were when V was computed (snapshot)
+                        got = member(left, val, depth + 1, True, here)
                         if got is not None:
-                            return got
-            return None if top else atom(f"{left} in {se.id}")
+                            extra_ = []
+                            for call_ in later:
+                                eq = eq_atom(left, call_.args[0])
+                                if eq is None:
+                                    return None
+                                extra_.append(f_and([conds_formula(all_conds(v, call_), subst), eq]))
+                            return f_or([got, *extra_]) if extra_ else got
+            if top:
+                return None
+            return snapshot(left, se.id, at) if at is not None else atom(f"{left} in {se.id}")
         parts: list[tuple[str, ast.AST]] = []
         if isinstance(se, ast.BinOp) and isinstance(se.op, (ast.BitOr, ast.Sub, ast.BitAnd)):
             op = {ast.BitOr: "or", ast.Sub: "sub", ast.BitAnd: "and"}[type(se.op)]
@@ -2301,7 +2340,7 @@ def make_subst(repo: Repo, v: FuncInfo):
             return None
         f: Formula | None = None
         for op, x in parts:
-            g = member(left, x, depth + 1, False)
+            g = member(left, x, depth + 1, False, at)
             if g is None:
                 return None
             f = g if op == "first" else f_or([f, g]) if op == "or" else f_and([f, f_not(g)]) if op == "sub" else f_and([f, g])
@@ -2328,6 +2367,20 @@ def make_subst(repo: Repo, v: FuncInfo):
         return helper(e)
 
     return subst
+
+
+def _later_adds(fn: ast.AST, name: str) -> list[ast.Call] | None:
+    """The `name.add(e)` calls that grow a local set after its binding; None when it is changed in any other way."""
+    out: list[ast.Call] = []
+    for n in ast.walk(fn):
+        if isinstance(n, ast.Call) and isinstance(n.func, ast.Attribute) and isinstance(n.func.value, ast.Name) and n.func.value.id == name:
+            if n.func.attr == "add" and len(n.args) == 1 and not n.keywords:
+                out.append(n)
+            elif n.func.attr in (_GROW | _SHRINK):
+                return None
+        elif isinstance(n, ast.AugAssign) and isinstance(n.target, ast.Name) and n.target.id == name:
+            return None
+    return out
 
 
 def _union_built(fn: ast.AST, params: set[str]) -> dict[str, list[ast.AST]]:
